@@ -5,8 +5,10 @@ package main
 import (
 	"fmt"
 	"math/rand"
+	"sort"
 
 	"verifh/cases"
+	"verifh/model"
 )
 
 func quick(c *Ctx) bool { return c.Tier != "thorough" }
@@ -95,7 +97,7 @@ func init() {
 		tg := baseCfg("Scan_Tags", "Tags")
 		tg.NTag = 3
 		p := scanProfile{
-			Check: []scanCfg{cm, tg}, Export: []scanCfg{cm, tg}, MaxAPI: 8000, MaxCLIFromTLC: 64,
+			Check: []scanCfg{cm, tg}, Export: []scanCfg{cm, tg}, MaxAPI: 8000, MaxCLIFromTLC: 100,
 			NRandom: 40, MaxTraces: 60,
 			Gen:   genParams{NBlob: 3, NTree: 4, NCommit: 16, NTag: 8, MaxEnt: 2, MaxBlob: 20, Merges: true, RootKinds: "refs"},
 			Fails: scanFails["C03"],
@@ -171,7 +173,7 @@ func init() {
 		ch := baseCfg("Scan_Trees3_chains", "Trees")
 		ch.NTree, ch.MaxEnt, ch.EntKinds, ch.BlobSizes = 3, 2, []string{"file", "tree"}, "Seq_3"
 		p := scanProfile{
-			Check: []scanCfg{tr, ch, tg, cm}, Export: []scanCfg{tr, ch, tg, cm}, MaxAPI: 0, MaxCLIFromTLC: 30,
+			Check: []scanCfg{tr, ch, tg, cm}, Export: []scanCfg{tr, ch, tg, cm}, MaxAPI: 0, MaxCLIFromTLC: 40,
 			NRandom: 0, MaxTraces: 40, Relational: true,
 			Fails: scanFails["C09"],
 			Extra: wideCases("c09"),
@@ -194,7 +196,26 @@ func init() {
 		p.Expand = func(rng *rand.Rand, sc cases.ScanCase) []cases.ScanCase {
 			n := len(sc.G.Commits)
 			var out []cases.ScanCase
-			for _, layout := range []string{"loose", "packed", "packrefs", "both"} {
+			// lightweight tags on some interior commits (the same in every variant): git writes tagged
+			// commits first into a pack, so the order in which a bitmapped or packed repository is
+			// enumerated differs from the order of the loose one
+			isRoot := map[model.Oid]bool{}
+			for _, r := range sc.Roots {
+				isRoot[r.O] = true
+			}
+			for i := 1; i <= n; i++ {
+				o := model.Oid{K: "c", I: i}
+				if !isRoot[o] && rng.Intn(2) == 0 && len(sc.Args) == 0 {
+					sc.Roots = append(sc.Roots, cases.RootSpec{O: o, Walk: true, IsRef: true, Name: fmt.Sprintf("refs/tags/k%d", i), Kind: "plain"})
+				}
+			}
+			sort.SliceStable(sc.Roots, func(i, j int) bool {
+				if sc.Roots[i].IsRef != sc.Roots[j].IsRef {
+					return sc.Roots[i].IsRef
+				}
+				return sc.Roots[i].IsRef && sc.Roots[i].Name < sc.Roots[j].Name
+			})
+			for _, layout := range []string{"loose", "packed", "packrefs", "both", "bitmap", "commitgraph", "twopacks", "alternates"} {
 				v := sc
 				v.Layout = layout
 				v.Dates = make([]int64, n)
